@@ -472,7 +472,7 @@ def write_scenarios(path, walks_as_steps, init, prefix="w"):
             fh.write(json.dumps({"id": "%s%d" % (prefix, n), "init": init, "steps": steps}) + "\n")
 
 
-def run_judge_parallel(chk, module, cfg, obs_path, obs_name="obs.ndjson", chunks=14, timeout=1800, walk_key="w"):
+def run_judge_parallel(chk, module, cfg, obs_path, obs_name="obs.ndjson", chunks=8, timeout=1800, walk_key="w"):
     """Role C on several TLC processes: the observation file is cut at walk boundaries."""
     import concurrent.futures
     lines = open(obs_path).read().splitlines()
